@@ -108,14 +108,17 @@ def structure_cases(draw):
 
 
 @st.composite
-def polys(draw, nf):
+def polys(draw, nf, prefer=None):
     nt = draw(st.integers(1, 3))
     terms = []
     for t in range(nt):
         ex = [0] * nf
-        deg = draw(st.integers(1 if t == 0 else 0, 3))     # the first term is never constant
-        for _ in range(deg):
-            ex[draw(st.integers(0, nf - 1))] += 1
+        deg = draw(st.integers(1 if t == 0 else 0, 3))     # the first term is never constant ...
+        for j in range(deg):
+            if t == 0 and j == 0 and prefer:               # ... and involves a coordinate that varies, if any
+                ex[draw(st.sampled_from(prefer))] += 1
+            else:
+                ex[draw(st.integers(0, nf - 1))] += 1
         terms.append([draw(st.one_of(st.sampled_from(COEF), st.floats(-3, 3, allow_nan=False))), ex])
     return ['poly', terms]
 
@@ -134,7 +137,8 @@ def pof_fns(draw, pos):
 @st.composite
 def stats_cases(draw):
     wts, pos = draw(factors())
-    case = dict(wts=wts, pos=pos, f=draw(polys(len(wts))), g=draw(pof_fns(pos)), f1=draw(polys(1)))
+    varying = [d for d, x in enumerate(pos) if len(set(x)) > 1]
+    case = dict(wts=wts, pos=pos, f=draw(polys(len(wts), varying)), g=draw(pof_fns(pos)), f1=draw(polys(1)))
     npts = _npts(wts)
     if draw(st.booleans()):
         case['values'] = draw(st.lists(_x(), min_size=npts, max_size=npts))
